@@ -1528,6 +1528,9 @@ func (c *Candidates) FixStakesAfter10509400() *big.Int {
 			if stake == nil {
 				continue
 			}
+			if _, ok := correctStakes[candidate.PubKey.String()][stake.Owner.String()]; !ok {
+				continue // the correction table only knows the mainnet stakes of block 10509400
+			}
 			if stake.Owner == dao.Address {
 				value := helpers.StringToBigInt(correctStakes[candidate.PubKey.String()][stake.Owner.String()])
 
